@@ -267,6 +267,10 @@ func pkgRandomLine(g *Gen, maxDepth int) string {
 // every class combination, one member of every kind × name class at the bottom, every route.
 func pkgExhaustive(g *Gen) {
 	kinds := []string{"v", "g", "s", "p", "h"}
+	nNames := 1 // member names tried per class
+	if g.Thorough() {
+		nNames = 2
+	}
 	for d := 1; d <= 4; d++ {
 		nchains := 1
 		for i := 1; i < d; i++ {
@@ -282,7 +286,7 @@ func pkgExhaustive(g *Gen) {
 			}
 			for _, mc := range pkgClasses {
 				for _, kind := range kinds {
-					for ni := 0; ni < 2; ni++ {
+					for ni := 0; ni < nNames; ni++ {
 						mname := pkgPool[mc][ni*5%len(pkgPool[mc])]
 						// member declaration
 						var m string
